@@ -1,11 +1,13 @@
 (* Model/KnownC01.v - Known_C01: the computable classes of (base, input) on which the pinned code is
    known to deviate from the WHATWG URL Standard (DESIGN.md section 9; known_findings.json).
      class 1  the file scheme is involved (the scheme of the input, or of the base of a scheme-less input
-              that is not empty and does not start with '?' or '#') - EXCEPT "file:" R with no base or a
-              base whose scheme is not file, with R inside the recogniser k_file_ok of the proved file
-              class (Proofs/C01_EqFile.v file_class_ok; Proofs/C01_EqFileCover.v: k_file_ok R = true ->
-              file_class_ok R = true).  `known_c01_v1` is the predicate before this narrowing (class 1 =
-              the whole file scheme);
+              that is not empty and does not start with '?' or '#') - EXCEPT, with R inside the recogniser
+              k_file_ok of the proved file class (Proofs/C01_EqFile.v file_class_ok; Proofs/C01_EqFileCover.v:
+              k_file_ok R = true -> file_class_ok R = true):  "file:" R with no base or a base whose scheme
+              is not file;  "file:" R against a file base when R starts with two '/' '\' ;  a scheme-less
+              reference R that starts with two '/' '\' against a file base.  `known_c01_v1` is the predicate
+              before any narrowing (class 1 = the whole file scheme), `known_c01_v2` the one without the two
+              file-base arms;
      class 2  a ".." (in any spelling) meets a drive-letter-shaped last segment in the path the Standard's
               path state builds (F-C01-9: parser.rs never pops such a segment, in any scheme);
      class 3  authority of a non-special URL: a port number <= 65535 directly followed by '\' (F-C01-8);
@@ -321,14 +323,35 @@ Definition k_file_ok (R : list N) : bool :=
   | [] => kf_ok false R R
   end.
 
-(* "file:" R with no base or a base with another scheme, R inside the proved class *)
-Definition k_file_narrow (base : option url) (input : list N) : bool :=
+(* "file:" R with no base or a base with another scheme, R inside the proved class: the narrowing of task
+   c01file3 (kept: Proofs/C01_EqFileCover.v is about these two) *)
+Definition k_file_narrow_v2 (base : option url) (input : list N) : bool :=
   let t := cleaned input in
   match leading_scheme t with
   | Some s => list_eqb s s_file
               && (match base with Some b => negb (list_eqb (b_scheme b) s_file) | None => true end)
               && k_file_ok (after_colon t)
   | None => false
+  end.
+Definition known_c01_v2 (base : option url) (input : list N) : N :=
+  let k := known_c01_v1 base input in
+  if (k =? 1) && k_file_narrow_v2 base input then 0 else k.
+
+(* ... and the two arms in which neither side reads a FILE base (Proofs/C01_EqFileTwo.v, C01_EqFileRel2.v):
+   "file:" R against a file base when R starts with two '/' '\' ; a scheme-less reference that starts with two
+   '/' '\' against a file base (that is not cannot-be-a-base) - R, resp. the reference, inside k_file_ok *)
+Definition k_file_narrow (base : option url) (input : list N) : bool :=
+  let t := cleaned input in
+  match leading_scheme t with
+  | Some s => list_eqb s s_file
+              && (match base with
+                  | Some b => negb (list_eqb (b_scheme b) s_file) || k_two_sl (after_colon t)
+                  | None => true end)
+              && k_file_ok (after_colon t)
+  | None => match base with
+            | Some b => list_eqb (b_scheme b) s_file && negb (k_cbb b) && k_two_sl t && k_file_ok t
+            | None => false
+            end
   end.
 
 (* Known_C01.  0 = not known; 1..4 = class *)
